@@ -15,7 +15,7 @@ def run_session(ID, tier, seed, only=None, select=None, lemmas=(), assumptions=(
                 witness_cap=40, extra=None, with_decoders=False):
     prog = make_prog()
     known = load_known()
-    if ID == 'C13':
+    if ID in ('C13', 'C12'):
         from contracts import session as CS
         prog.contracts[CS.FSM + 'manual_stop'] = Contract(CS.FSM + 'manual_stop', CS.ev_manual_stop_c13)
     run = Run(ID, tier, seed)
@@ -27,7 +27,7 @@ def run_session(ID, tier, seed, only=None, select=None, lemmas=(), assumptions=(
         if only and u.name not in only:
             continue
         u.props = tuple(set(u.props) | {ID})
-        if ID == 'C13' and u.name in ('FSM.manual_stop', 'BGPPeering.manual_stop'):
+        if ID in ('C13', 'C12') and u.name in ('FSM.manual_stop', 'BGPPeering.manual_stop'):
             # C13 states its own rule for the Cease (only from Established); the RFC rows are C01's
             from contracts import session as CS, peering as PE
             u.spec = CS.ev_manual_stop_c13 if u.name == 'FSM.manual_stop' else PE.p_manual_stop_c13
